@@ -17,7 +17,8 @@ ASSUMPTIONS = ["network outputs (float32) of the real Q / critic modules are inp
 
 
 def units(tier):
-    return [{"name": n, "timeout": 2400} for n in ("dqn_loss", "dqn_grad", "dqn_train", "sac_target", "sac_updates")]
+    return [{"name": n, "timeout": 2400} for n in ("dqn_loss", "dqn_grad", "dqn_train", "sac_target", "sac_updates",
+                                                     "sac_iteration")]
 
 
 def _flags(rng, N):
@@ -187,6 +188,25 @@ def u_dqn_grad(ctx):
             ctx.violation("dqn-online-gradient-not-of-constant-target-regression", {"maxdiff": md, "scale": scale})
 
 
+_SG = {}
+
+
+def _semi_grad():
+    """jitted gradient of 0.5*mean((Q_online(s,a) - const)^2) w.r.t. the online network"""
+    import equinox as eqx
+    import jax
+    import jax.numpy as jnp
+
+    if "f" not in _SG:
+        def loss(p, buf, tconst):
+            q = jax.vmap(lambda o: p.q_values(None, o)[1])(buf.observations)
+            qs = q[jnp.arange(q.shape[0]), buf.actions.astype(int)]
+            return jnp.mean(jnp.square(qs - tconst)) / 2
+
+        _SG["f"] = eqx.filter_jit(eqx.filter_grad(loss))
+    return _SG["f"]
+
+
 def u_dqn_train(ctx):
     """dqn_train on a full buffer with batch_size == capacity: the sampled batch is a permutation,
     so the reported loss is the reference loss of the whole buffer."""
@@ -207,6 +227,26 @@ def u_dqn_train(ctx):
         if abs(got - want) > 1e-5 + 2e-4 * abs(want):
             ctx.violation("dqn-train-" + _classify_dqn(ctx, got, buf, q_on, q_on_next, q_tg_next, gamma, {}),
                           {"got": got, "want": want, "gamma": gamma})
+        # the parameter step is the optimiser applied to the semi-gradient (targets constant), for the
+        # explicit-target path and for the public train() path (target = the policy itself)
+        for path in ("dqn_train", "train"):
+            tgt = target if path == "dqn_train" else online
+            if path == "train":
+                new_pol, _, log2 = eqx.filter_jit(algo.train)(online, opt_state, buf, key=ctx.key(i))
+            _, qn_on, qn_tg = _dqn_nets(online, tgt, buf)
+            _, targets, _, _ = dqn_ref(q_on, qn_on, qn_tg, buf.actions, buf.rewards, buf.dones, buf.timeouts, gamma)
+            g_ref = _semi_grad()(online, buf, np.asarray(targets, np.float32))
+            upd, _ = algo.optimizer.update(g_ref, opt_state, eqx.filter(online, eqx.is_inexact_array))
+            want_pol = eqx.apply_updates(online, upd)
+            from vlib.common import inexact_leaves
+
+            a, b, p0 = inexact_leaves(new_pol), inexact_leaves(want_pol), inexact_leaves(online)
+            md = max(float(np.max(np.abs(x - y))) for x, y in zip(a, b) if x.size and np.all(np.isfinite(x)))
+            moved = max(float(np.max(np.abs(x - y))) for x, y in zip(b, p0) if x.size and np.all(np.isfinite(x)))
+            ctx.monitor(f"dqn_{path}_steps_compared_with_semi_gradient")
+            if gamma > 0 and md > 1e-6 + 2e-2 * moved:
+                ctx.violation(f"dqn-{path.replace('_', '-')}-step-not-semi-gradient-targets-not-constant",
+                              {"maxdiff": md, "moved": moved, "gamma": gamma, "N": N})
 
 
 # ------------------------------------------------------------------------------------------ SAC
@@ -492,6 +532,64 @@ def u_sac_updates(ctx):
     ctx.require("actor_vs_skip_pairs", 2)
 
 
+def u_sac_iteration(ctx):
+    """The real iteration() must hand the *target* critics of the state to the target computation:
+    state built by the real reset(), target critics replaced by nets with other parameters, one real
+    iteration with the recording wrapper on q_loss_grad."""
+    import equinox as eqx
+    import jax
+    import jax.numpy as jnp
+    from lerax.algorithm import SAC
+    from lerax.algorithm.sac import SoftQNetwork
+    from lerax.wrapper import TimeLimit
+    from vlib.common import inexact_leaves
+
+    with _Spy() as spy:
+        for i in range(ctx.n(6, 40)):
+            env = TimeLimit(_denv(ctx, "box"), int(ctx.rng.integers(2, 6)))
+            gamma = float(ctx.rng.choice([0.5, 0.9, 0.99]))
+            alpha = float(ctx.rng.choice([0.05, 0.2, 1.0]))
+            E, S = int(ctx.rng.integers(1, 3)), int(ctx.rng.integers(1, 3))
+            algo = SAC(buffer_size=16 * E, batch_size=4, gamma=gamma, learning_starts=4, num_envs=E, num_steps=S,
+                       q_width_size=8, q_depth=1, initial_alpha=alpha, policy_frequency=2, autotune=False, q_lr=1e-2)
+            pol = _stub_policy(env, float(ctx.rng.uniform(0.5, 2)), float(ctx.rng.uniform(0.5, 3)))
+            cb = algo.consolidate_callbacks(None)
+            st = eqx.filter_jit(lambda k: algo.reset(env, pol, key=k, callback=cb))(ctx.key(i))
+            osz, asz = env.observation_space.flat_size, env.action_space.flat_size
+            t1 = SoftQNetwork(osz, asz, width_size=8, depth=1, key=ctx.key(100 + i))
+            t2 = SoftQNetwork(osz, asz, width_size=8, depth=1, key=ctx.key(200 + i))
+            st = eqx.tree_at(lambda s: (s.qf1_target, s.qf2_target), st, (t1, t2))
+            spy.calls.clear()
+            st2 = eqx.filter_jit(lambda s, k: algo.iteration(s, key=k, callback=cb))(st, ctx.key(300 + i))
+            jax.effects_barrier()
+            if len(spy.calls) != 1 or spy.calls[0][1] is None:
+                ctx.inconc("spy saw no targets during iteration()")
+                continue
+            batch, got = spy.calls[0]
+            want, b = sac_target_ref(pol, [st.qf1, st.qf2, st.qf1_target, st.qf2_target], batch, gamma, alpha)
+            ctx.case({"gamma": gamma, "alpha": alpha, "E": E, "S": S, "i": i}, nontrivial=True, cls="sac-iteration")
+            ctx.monitor("sac_iteration_targets_observed")
+            if np.max(np.abs(got - want)) > 1e-5 + 2e-4 * np.max(np.abs(want)):
+                alt, _ = sac_target_ref(pol, [st.qf1, st.qf2, st.qf1, st.qf2_target], batch, gamma, alpha)
+                alt2, _ = sac_target_ref(pol, [st.qf1, st.qf2, st.qf1, st.qf2], batch, gamma, alpha)
+                key = "sac-iteration-targets-not-from-target-critics"
+                if np.max(np.abs(got - alt)) <= 1e-5 + 2e-4 * np.max(np.abs(alt)) or np.max(np.abs(got - alt2)) <= 1e-5 + 2e-4 * np.max(np.abs(alt2)):
+                    key = "sac-iteration-uses-online-critic-as-target"
+                ctx.violation(key, {"gamma": gamma, "alpha": alpha, "got": got, "want": want})
+            # the iteration must not have changed the target critics except by one Polyak step
+            for nm, tnet in (("qf1", t1), ("qf2", t2)):
+                on = inexact_leaves(getattr(st2, nm))
+                tg = inexact_leaves(getattr(st2, nm + "_target"))
+                t0 = inexact_leaves(tnet)
+                err = max(float(np.max(np.abs(algo.tau * o.astype(np.float64) + (1 - algo.tau) * a.astype(np.float64) - g)))
+                          for o, a, g in zip(on, t0, tg) if o.size)
+                if err > 2e-6:
+                    ctx.violation("sac-iteration-target-critics-not-polyak-of-state-targets", {"net": nm, "err": err})
+    ctx.require("sac_iteration_targets_observed", 3)
+
+
 def run_unit(name, ctx):
+    if name == "sac_iteration":
+        return u_sac_iteration(ctx)
     {"dqn_loss": u_dqn_loss, "dqn_grad": u_dqn_grad, "dqn_train": u_dqn_train, "sac_target": u_sac_target,
      "sac_updates": u_sac_updates}[name](ctx)
